@@ -12,6 +12,6 @@ PY
 while read m c; do
   out=$(tools/mutrun.py $m $c 2>&1)
   nv=$(echo "$out" | grep -c '^VIOLATION')
-  err=$(echo "$out" | grep -c 'CHECK-ERROR')
+  err=$(echo "$out" | grep -c -E 'CHECK-ERROR|AssertionError|Traceback')
   echo "$m $c violations=$nv check_error=$err"
 done < /tmp/mutlist.txt
